@@ -523,10 +523,10 @@ pub fn random_abstract(rng: &mut Rng, size: usize, break_links: bool) -> Value {
             let area = 2500 * rng.range(4, 80);
             walls.push(json!({"id": wid, "space": brk(rng, s), "cons": brkp(rng, &wcs[..nwc]), "next": nextsp,
                 "bounds": b, "tilt": *rng.pick(&tilts), "orient": *rng.pick(&orients), "area": area}));
-            let nwin = rng.below(3);
-            let mut left = area / 2;
+            let nwin = rng.below(5);
+            let mut left = (area * 3) / 4;
             for _ in 0..nwin {
-                let wa = 2500 * rng.range(1, 8);
+                let wa = 2500 * rng.range(1, 6);
                 if wa > left {
                     break;
                 }
